@@ -43,6 +43,9 @@ type WL struct {
 	// Pair: a second, independent database is dumped and loaded concurrently in the same process
 	// (two tasks of one simulated run, interleaved at every database call). Each must round-trip.
 	Pair *stor.DBSpec `json:"pair,omitempty"`
+	// LoadFault > 0: a further load of the dump into a fresh target suffers ONE failing database call (the
+	// LoadFault-th); if that load nevertheless reports success, the target must hold the source graph.
+	LoadFault uint32 `json:"load_fault,omitempty"`
 }
 
 func gen(r *rand.Rand) WL {
@@ -74,6 +77,9 @@ func gen(r *rand.Rand) WL {
 		w.ShortReads = 1 + r.IntN(7)
 	}
 	w.Edit = []string{"delnode", "addedge", "kind", "rewire", "rewire", "none"}[r.IntN(6)]
+	if r.IntN(5) == 0 {
+		w.LoadFault = 1 + r.Uint32()%40
+	}
 	if r.IntN(8) == 0 {
 		p := stor.GenDB(r, 2, 6, 6)
 		w.Pair = &p
@@ -318,6 +324,32 @@ func exec(t *testing.T, w WL, cfg simrt.Config) simh.Outcome {
 				return fail("oracle:verify_missed_edit", "Verify succeeded although the database was edited ("+w.Edit+")")
 			}
 			o.Counters["verify_rejected_edit"]++
+		}
+	}
+	if w.LoadFault > 0 {
+		dst := stor.NewTarget()
+		fired := false
+		dst.Hook = func(_ context.Context, site string) error {
+			if dst.Calls == int(w.LoadFault) {
+				fired = true
+				return fmt.Errorf("%s: injected transient database error", site)
+			}
+			return nil
+		}
+		lo := retriever.DefaultLoadOptions(loadDir)
+		lo.BatchSize, lo.ProgressInterval = w.LoadBatch, 0
+		var lerr error
+		if c, d := stor.UnderSim(t, cfg, "load-with-transient-fault", func() { _, lerr = retriever.Load(ctx, dst, "simdb", lo) }); c != "" {
+			return fail(c, d)
+		}
+		if fired {
+			o.Counters["loads_with_transient_target_fault"]++
+			if lerr == nil {
+				o.Counters["loads_reporting_success_despite_fault"]++
+				if d := stor.Compare(w.DB, dst); d != "" {
+					return fail("oracle:isomorphism", "a load that met one failing database call reported success, but "+d)
+				}
+			}
 		}
 	}
 	o.Res.Steps, o.Res.Tasks = stor.SimSteps, stor.SimTasks
